@@ -56,6 +56,9 @@ func runC04(c *core.Ctx) {
 		if c.Mine(i) && c.Want("long/"+t.Name) {
 			c04Case(c, t, 1+i%8, 6, 1, 3, "long/"+t.Name, 10000)
 		}
+		if c.Mine(i+5) && c.Want("large/"+t.Name) {
+			c04Case(c, t, 1+(i+3)%8, 700, 2, 5, "large/"+t.Name, 0)
+		}
 	}
 	c.Floor("noop_calls_on_full", 100)
 	c.Floor("appending_calls", 1000)
